@@ -12,55 +12,110 @@ Lemma xsqrt_fin a : 0 <= a -> xsqrt (Fin a) = Fin (sqrt a).
 Proof. intros H; cbn. destruct (Rlt_dec a 0); [lra|reflexivity]. Qed.
 
 (** ** StandardGeometry.distance: which root *)
-Section Select.
-  Variables k N M zl y Rc : R.
-  Let a := k*(N*N) + 0*0 + M*M + N*N.
-  Let b := 2*k*N*zl + 2*0*0 + 2*M*y - 2*N*Rc + 2*N*zl.
-  Let c := k*(zl*zl) - 2*Rc*zl + 0*0 + y*y + zl*zl.
-  Let d := b*b - 4*a*c.
-  Let t1 := (- b + sqrt d) / (2*a).
-  Let t2 := (- b + - sqrt d) / (2*a).
-  Hypothesis Ha : a <> 0.
-  Hypothesis Hd : 0 <= d.
+(** the choice between two finite candidates (first one [u], second one [v]) *)
+Section Choice.
+  Variables zl N u v : R.
   Hypothesis HN : N <> 0.
-  Let res := k_std_distance XOps (Fin k) (Fin N) (Fin 0) (Fin M) (Fin zl) (Fin 0) (Fin y) (Fin Rc).
 
   Lemma xinf_mul_N : xabs (xadd (Fin zl) (xmul PInf (Fin N))) = PInf.
   Proof.
     cbn. destruct (Rlt_dec 0 N); [reflexivity|]. destruct (Rlt_dec N 0); [reflexivity|lra].
   Qed.
 
-  Lemma res_cases :
-    res = (let t1' := if Rltb t1 0 then PInf else Fin t1 in
-           let t2' := if Rltb t2 0 then PInf else Fin t2 in
-           let z1 := xadd (Fin zl) (xmul t1' (Fin N)) in
-           let z2 := xadd (Fin zl) (xmul t2' (Fin N)) in
-           if xleb (xabs z1) (xabs z2) then t1' else t2').
+  Definition choose (u v : R) : xR :=
+    let t1' := if Rltb u 0 then PInf else Fin u in
+    let t2' := if Rltb v 0 then PInf else Fin v in
+    let z1 := xadd (Fin zl) (xmul t1' (Fin N)) in
+    let z2 := xadd (Fin zl) (xmul t2' (Fin N)) in
+    if xleb (xabs z1) (xabs z2) then t1' else t2'.
+
+  Lemma choose_second : 0 <= v -> Rabs (zl + v*N) < Rabs (zl + u*N) -> choose u v = Fin v.
+  Proof.
+    intros H2 Hs. unfold choose. cbv zeta.
+    assert (E2 : Rltb v 0 = false) by (apply Rltb_false; exact H2). rewrite E2.
+    destruct (Rltb u 0) eqn:E1.
+    - rewrite xinf_mul_N. cbn. reflexivity.
+    - cbn [xmul xadd xabs xleb]. unfold Rleb. destruct (Rle_dec _ _); [lra|reflexivity].
+  Qed.
+  Lemma choose_first : 0 <= u -> Rabs (zl + u*N) < Rabs (zl + v*N) -> choose u v = Fin u.
+  Proof.
+    intros H1 Hs. unfold choose. cbv zeta.
+    assert (E1 : Rltb u 0 = false) by (apply Rltb_false; exact H1). rewrite E1.
+    destruct (Rltb v 0) eqn:E2.
+    - rewrite xinf_mul_N. cbn. reflexivity.
+    - cbn [xmul xadd xabs xleb]. unfold Rleb. destruct (Rle_dec _ _); [reflexivity|lra].
+  Qed.
+End Choice.
+
+Section Select.
+  Variables k N M zl y Rc : R.
+  Let a := k*(N*N) + 0*0 + M*M + N*N.
+  Let b := 2*k*N*zl + 2*0*0 + 2*M*y - 2*N*Rc + 2*N*zl.
+  Let c := k*(zl*zl) - 2*Rc*zl + 0*0 + y*y + zl*zl.
+  Let d := b*b - 4*a*c.
+  Hypothesis Ha : a <> 0.
+  Hypothesis Hd : 0 < d.
+  Hypothesis HN : N <> 0.
+  Let res := k_std_distance XOps (Fin k) (Fin N) (Fin 0) (Fin M) (Fin zl) (Fin 0) (Fin y) (Fin Rc).
+  (** the kernel's stable pair: q = -(b + sgn(b) sqrt d)/2, candidates q/a and c/q *)
+  Let sb := if Rltb b 0 then -1 else 1.
+  Let q := - / 2 * (b + sb * sqrt d).
+
+  Lemma sb_pm : sb = 1 \/ sb = -1.
+  Proof. unfold sb. destruct (Rltb b 0); [right|left]; reflexivity. Qed.
+
+  Lemma q_neq0 : q <> 0.
+  Proof.
+    assert (Hs : 0 < sqrt d) by (apply sqrt_lt_R0; exact Hd).
+    unfold q, sb. destruct (Rltb b 0) eqn:E.
+    - apply Rltb_true in E. nra.
+    - apply Rltb_false in E. nra.
+  Qed.
+
+  Lemma res_cases : res = choose zl N (q / a) (c / q).
   Proof.
     unfold res. rewrite res_unfold. cbv zeta. fold a. fold b. fold c. fold d.
     unfold Reqb. destruct (Req_EM_T a 0) as [E|_]; [contradiction|].
-    rewrite xsqrt_fin by exact Hd. cbn [xneg xadd xsub].
-    rewrite !xdiv_fin' by lra. fold t1. fold t2. cbn [xltb]. reflexivity.
+    rewrite xsqrt_fin by lra.
+    assert (Eq : xmul (Fin (- / 2)) (xadd (Fin b) (xmul (if Rltb b 0 then Fin (- 1) else Fin 1) (Fin (sqrt d)))) = Fin q).
+    { unfold q, sb. destruct (Rltb b 0); cbn [xmul xadd]; reflexivity. }
+    rewrite Eq. cbn [xeqb]. unfold Reqb. destruct (Req_EM_T q 0) as [E|_]; [exfalso; exact (q_neq0 E)|].
+    rewrite !xdiv_fin' by (first [exact Ha | exact q_neq0]). reflexivity.
   Qed.
 
-  Lemma select_t2 : 0 <= t2 -> (t1 < 0 \/ Rabs (zl + t2*N) < Rabs (zl + t1*N)) -> res = Fin t2.
+  (** the two candidates are the two roots *)
+  Lemma cand1 : q / a = (- b - sb * sqrt d) / (2*a).
+  Proof. unfold q. field. exact Ha. Qed.
+  Lemma cand2 : c / q = (- b + sb * sqrt d) / (2*a).
   Proof.
-    intros H2 Hsel. rewrite res_cases. cbv zeta.
-    assert (E2 : Rltb t2 0 = false) by (apply Rltb_false; exact H2). rewrite E2.
-    destruct (Rltb t1 0) eqn:E1.
-    - rewrite xinf_mul_N. cbn. reflexivity.
-    - apply Rltb_false in E1. destruct Hsel as [Hs|Hs]; [lra|].
-      cbn [xmul xadd xabs xleb]. unfold Rleb. destruct (Rle_dec _ _); [lra|reflexivity].
+    assert (Hq := q_neq0).
+    assert (Hs : sqrt d * sqrt d = b*b - 4*a*c) by (rewrite sqrt_sqrt by lra; reflexivity).
+    assert (Hsb : sb * sb = 1) by (destruct sb_pm as [E|E]; rewrite E; ring).
+    apply Rmult_eq_reg_l with (q * (2*a)).
+    2:{ apply Rmult_integral_contrapositive_currified; [exact Hq|lra]. }
+    transitivity (c * (2*a)); [field; exact Hq|].
+    transitivity (q * (- b + sb * sqrt d)); [|field; exact Ha].
+    unfold q.
+    transitivity (- / 2 * ((sb*sb) * (sqrt d * sqrt d) - b*b)); [rewrite Hsb, Hs; field|ring].
   Qed.
 
-  Lemma select_t1 : 0 <= t1 -> (t2 < 0 \/ Rabs (zl + t1*N) < Rabs (zl + t2*N)) -> res = Fin t1.
+  (** with sg = +-1: if the root (-b - sg sqrt d)/(2a) is in front of the ray and lands
+      strictly nearer to the vertex plane than the other one, the kernel returns it *)
+  Lemma select_root sg : (sg = 1 \/ sg = -1) ->
+    let tv := (- b - sg * sqrt d) / (2*a) in
+    let to := (- b + sg * sqrt d) / (2*a) in
+    0 <= tv -> Rabs (zl + tv*N) < Rabs (zl + to*N) -> res = Fin tv.
   Proof.
-    intros H1 Hsel. rewrite res_cases. cbv zeta.
-    assert (E1 : Rltb t1 0 = false) by (apply Rltb_false; exact H1). rewrite E1.
-    destruct (Rltb t2 0) eqn:E2.
-    - rewrite xinf_mul_N. cbn. reflexivity.
-    - apply Rltb_false in E2. destruct Hsel as [Hs|Hs]; [lra|].
-      cbn [xmul xadd xabs xleb]. unfold Rleb. destruct (Rle_dec _ _); [reflexivity|lra].
+    intros Hsg tv to Ht Hsel. rewrite res_cases, cand1, cand2.
+    destruct sb_pm as [E|E]; rewrite E; destruct Hsg as [G|G]; subst sg tv to.
+    - apply choose_first; assumption.
+    - replace ((- b - 1 * sqrt d) / (2 * a)) with ((- b + -1 * sqrt d) / (2 * a)) by (f_equal; ring).
+      replace ((- b + 1 * sqrt d) / (2 * a)) with ((- b - -1 * sqrt d) / (2 * a)) by (f_equal; ring).
+      apply choose_second; assumption.
+    - replace ((- b - -1 * sqrt d) / (2 * a)) with ((- b + 1 * sqrt d) / (2 * a)) by (f_equal; ring).
+      replace ((- b + -1 * sqrt d) / (2 * a)) with ((- b - 1 * sqrt d) / (2 * a)) by (f_equal; ring).
+      apply choose_second; assumption.
+    - apply choose_first; assumption.
   Qed.
 End Select.
 
